@@ -136,6 +136,31 @@ func c02Frame(r *Rng, peer net.IP, known bool) ([]byte, string) {
 		return ethFrame(sensorMAC, srcMAC, 0x0800, ipv4Packet(peer, dst, 6, 5, seg)), "syn"
 	case 9: // well-formed UDP to a decoded port with garbage / plausible payload
 		pl := r.Bytes(r.Range(0, 80))
+		if r.Chance(0.6) {
+			// a DNS message that is almost right: counts that promise more than follows, cut inside a record,
+			// compression pointers and label lengths pointing past the end
+			pl = dnsQueryBytes(uint16(r.Intn(65536)), r.word(1, 8)+"."+r.word(1, 5)+".example")
+			for k := r.Range(1, 3); k > 0; k-- {
+				switch r.Intn(5) {
+				case 0:
+					if len(pl) >= 12 {
+						binary.BigEndian.PutUint16(pl[4+2*r.Intn(4):], uint16([]int{0, 1, 2, 255, 65535}[r.Intn(5)])) // qd/an/ns/ar count
+					}
+				case 1:
+					pl = pl[:r.Range(0, len(pl))]
+				case 2:
+					if len(pl) > 12 {
+						pl[12+r.Intn(len(pl)-12)] = byte([]int{0xc0, 0xff, 0x3f, 0x40, 0x00}[r.Intn(5)])
+					}
+				case 3:
+					pl = append(pl, 0xc0, byte(r.Intn(256)), 0, 1, 0, 1, 0, 0, 0, 60, 0, byte(r.Intn(20)))
+				default:
+					if len(pl) > 2 {
+						pl[2] |= 0x80 // a response
+					}
+				}
+			}
+		}
 		return ethFrame(sensorMAC, srcMAC, 0x0800, ipv4Packet(peer, dst, 17, 6, udpDatagram(peer, dst, sport, []uint16{53, 123, 1900, 5060, 161, 162}[r.Intn(6)], pl))), "udp-decoded-port"
 	case 10: // IPv6
 		return ethFrame(sensorMAC, srcMAC, 0x86dd, r.Bytes(r.Range(0, 80))), "ipv6"
@@ -356,7 +381,7 @@ func runC02(t *testing.T, sc *Scenario) Result {
 				for i := 0; i < n; i++ {
 					// distinct 4-tuples: vary source port and the low address byte
 					src := net.IPv4(ip[0], ip[1], ip[2], byte(2+i/60000)).To4()
-					seg := tcpSegment(src, sensorRaw, uint16(1024+i%60000), uint16(1024+i%1000), uint32(i), 0, tcpSYN, 1024, nil, nil)
+					seg := tcpSegment(src, sensorRaw, uint16(1024+i%60000), uint16(1024+i%3000), uint32(i), 0, tcpSYN, 1024, nil, nil)
 					sys.Inject(ethFrame(sensorMAC, peerMAC(ip), 0x0800, ipv4Packet(src, sensorRaw, 6, uint16(i), seg)))
 					frames++
 					if i%512 == 511 {
@@ -366,6 +391,11 @@ func runC02(t *testing.T, sc *Scenario) Result {
 			}
 		}
 		w.Play()
+		synctest.Wait()
+		// six quiet seconds: whatever the history queued for the port-scan detector is reported now
+		w.step++
+		hub.setStep(w.step)
+		time.Sleep(6 * time.Second)
 		synctest.Wait()
 		// the probe: a well-formed UDP datagram to a port without decoder
 		w.step++
